@@ -234,7 +234,7 @@ Section ThriftVec.
 End ThriftVec.
 
 (* ---- generic walker used to classify known-finding inputs: does a generic (type-directed) walk of the
-   struct at the head of `bs` meet a list / map header whose declared count exceeds BOTH 2^20 and the number
+   struct at the head of `bs` meet a list / map header whose declared count exceeds BOTH 2^14 and the number
    of bytes that follow it?  (Each element occupies at least one byte on the wire.) *)
 Section Walk.
   Variable walk_d : N -> list N -> option (bool * list N).
@@ -261,7 +261,7 @@ Section Walk.
              | None => None
              end
     end.
-  Definition oversize (n : N) (rest : list N) : bool := (1048576 <? n) && (N.of_nat (length rest) <? n).
+  Definition oversize (n : N) (rest : list N) : bool := (16384 <? n) && (N.of_nat (length rest) <? n).
   Definition walk_body (ft : N) (bs : list N) : option (bool * list N) :=
     if (ft =? 9) || (ft =? 10) then
       match read_list_begin bs with
